@@ -21,7 +21,8 @@ Definition x_spec_prf_short := Mac.prf_short Perm.perm.
 Definition x_spec_hmac (v : xof_variant) := Mac.hmac (Hash.hash Perm.perm v).
 Definition x_spec_kmac := Mac.kmac Perm.perm.
 Definition x_spec_kdf := Mac.kdf Perm.perm.
-Definition x_spec_hkdf_okm (v : xof_variant) (salt ikm info : bytes) :=
-  Mac.hkdf_okm (Hash.hash Perm.perm v) (Mac.hkdf_extract (Hash.hash Perm.perm v) salt ikm) info.
+(* the first nblocks blocks of the OKM stream (the full stream is quadratic to evaluate) *)
+Definition x_spec_hkdf_okm (v : xof_variant) (salt ikm info : bytes) (nblocks : nat) :=
+  flat_map (Mac.hkdf_T (Hash.hash Perm.perm v) (Mac.hkdf_extract (Hash.hash Perm.perm v) salt ikm) info) (seq 1 nblocks).
 Definition x_spec_pbkdf2 (P : bytes) := Mac.pb_dk (Mac.pbkdf2_prf Perm.perm P).
 Definition x_spec_pbkdf2_hmac (P : bytes) := Mac.pb_dk (Mac.hmac (Hash.hash Perm.perm vxof) P).
